@@ -65,15 +65,18 @@ impl CachedPlan {
     /// Return true if a set of input and output nodes matches those used to
     /// create the plan.
     pub fn matches(&self, inputs: &[NodeId], outputs: &[NodeId]) -> bool {
-        let input_match = inputs.len() == self.inputs.len()
-            && inputs
-                .iter()
-                .all(|node_id| self.inputs.binary_search(node_id).is_ok());
-        let output_match = outputs.len() == self.outputs.len()
-            && outputs
-                .iter()
-                .all(|node_id| self.outputs.binary_search(node_id).is_ok());
-        input_match && output_match
+        // The plan's IDs are unique, so a list of the same length is a
+        // permutation of them if every ID is present and none is repeated.
+        // Lists with repeated IDs must not match, as they need to be rejected
+        // by the planner.
+        let is_permutation = |ids: &[NodeId], sorted_ids: &[NodeId]| {
+            ids.len() == sorted_ids.len()
+                && ids
+                    .iter()
+                    .all(|node_id| sorted_ids.binary_search(node_id).is_ok())
+                && first_duplicate_by(ids, |x, y| x == y).is_none()
+        };
+        is_permutation(inputs, &self.inputs) && is_permutation(outputs, &self.outputs)
     }
 
     /// Return the IDs of the sequence of operators to run.
